@@ -129,6 +129,13 @@ def _files(rng, i):
         fs["nested"] = None
         fs["nested/" + FN_SP] = json.dumps({"zz": i}).encode().hex()
         fs["nested/data"] = b"n".hex()
+    if r() < 0.12:                       # a bare state point file two levels below the job directory
+        fs["x"] = None
+        fs["x/y"] = None
+        fs["x/y/" + FN_SP] = json.dumps({"deep": i}).encode().hex()
+        fs["x/y/payload"] = b"xy".hex()
+    if r() < 0.12:                       # a nested signac project: state point files three levels down
+        fs.update({k: v for k, v in _nested_files(i).items() if k.startswith("analysis")})
     if r() < 0.08:
         fs["10"] = None
         fs["10/x"] = b"ten".hex()
@@ -254,6 +261,18 @@ def _one(rng, tier, big=False):
             "pre": pre, "strip": strip or zip_extra, "rel": kind == "dir" and rng.random() < 0.3}
 
 
+def _nested_files(v):
+    """a job payload with a bare x/y/signac_statepoint.json and a nested signac project (two inner jobs)"""
+    fs = {"f.txt": b"f".hex(), "x": None, "x/y": None, "x/y/" + FN_SP: json.dumps({"deep": v}).encode().hex(),
+          "analysis": None, "analysis/workspace": None}
+    for k in range(2):
+        inner = "%032x" % (0xabc0 + 16 * v + k)
+        fs["analysis/workspace/" + inner] = None
+        fs["analysis/workspace/%s/%s" % (inner, FN_SP)] = json.dumps({"inner": k, "of": v}).encode().hex()
+        fs["analysis/workspace/%s/out.txt" % inner] = b"o".hex()
+    return fs
+
+
 FIXED = [
     # the former counterexamples (F6, F7, F15, F18, F19: repaired, must now round-trip or be refused
     # cleanly) and the witnesses of the remaining _refuted theorems (F20' root / lex, F21)
@@ -289,6 +308,20 @@ FIXED = [
     {"universe": "F20-root-empty", "jobs": [{"sp": typed({"a": 1}), "files": {}}, {"sp": typed({"a": 2}), "files": {}}],
      "asc": True, "kind": "zip", "path": {"t": "call", "names": [".", ""], "mode": "byid_asc"},
      "schema": {"t": "none"}, "pre": [], "strip": False},
+    # state point files deep below a job directory (a nested signac project, a bare x/y/signac_statepoint.json):
+    # everything below a recognised job belongs to it, at any depth, for every kind of origin
+    {"universe": "nested-project-dir", "jobs": [{"sp": typed({"a": v}), "files": _nested_files(v)} for v in (1, 2, 3)],
+     "asc": True, "kind": "dir", "path": {"t": "none"}, "schema": {"t": "none"}, "pre": [], "strip": False},
+    {"universe": "nested-project-zip", "jobs": [{"sp": typed({"a": v}), "files": _nested_files(v)} for v in (1, 2, 3)],
+     "asc": False, "kind": "zip", "path": {"t": "none"}, "schema": {"t": "none"}, "pre": [], "strip": False},
+    {"universe": "nested-project-tar", "jobs": [{"sp": typed({"a": v}), "files": _nested_files(v)} for v in (1, 2, 3)],
+     "asc": True, "kind": "tar", "path": {"t": "none"}, "schema": {"t": "none"}, "pre": [], "strip": False},
+    {"universe": "nested-project-tar.gz", "jobs": [{"sp": typed({"a": v}), "files": _nested_files(v)} for v in (1, 2, 3)],
+     "asc": False, "kind": "tar.gz", "path": {"t": "false"}, "schema": {"t": "none"}, "pre": [], "strip": False},
+    {"universe": "nested-project-tar.bz2", "jobs": [{"sp": typed({"a": v}), "files": _nested_files(v)} for v in (1, 2, 3)],
+     "asc": True, "kind": "tar.bz2", "path": {"t": "none"}, "schema": {"t": "call", "mode": "faithful"}, "pre": [], "strip": False},
+    {"universe": "nested-project-tar.xz", "jobs": [{"sp": typed({"a": v}), "files": _nested_files(v)} for v in (1, 2, 3)],
+     "asc": True, "kind": "tar.xz", "path": {"t": "none"}, "schema": {"t": "auto_str", "wrong": False}, "pre": [], "strip": False},
     # F20' (repaired by 3224fe9 / 54a5f4b): the target itself next to other jobs, inner '..', a single 'a/../'
     {"universe": "F20-root-dir", "jobs": [{"sp": typed({"a": 1}), "files": {"f.txt": b"1".hex()}}, {"sp": typed({"a": 2}), "files": {"f.txt": b"2".hex(), "sub": None, "sub/g": b"g".hex()}}],
      "asc": True, "kind": "dir", "path": {"t": "call", "names": [".", "r1"], "mode": "byid_asc"},
@@ -386,7 +419,7 @@ FIXED = [
 
 def gen_inputs(tier, rng):
     descs = [dict(d) for d in FIXED]
-    n = 200 if tier == "quick" else 6000
+    n = 194 if tier == "quick" else 6000
     for i in range(n):
         descs.append(_one(rng, tier, big=(tier != "quick" and i % 3 == 0) or (tier == "quick" and i % 12 == 0)))
     return descs
